@@ -174,6 +174,26 @@ theorem alias_lookup (ops : List Op) :
   · intro e he n hn hc hl ws ws2 sym h1 h2 h3
     exact alias_described hinv he hn ws ws2 sym hc hl h1 h2 h3
 
+/-- The documented short forms (`log`, `iter`, `out`, `meta`; Spec `shortNames`) given as a description without `:`
+    resolve, in every reachable state, to the id of the built-in type they stand for — the alias lookup agrees with
+    the whole-string lookup of the registry. -/
+theorem alias_short_forms (ops : List Op) :
+    ∀ sf ∈ shortNames, ∃ e ∈ allNamed init, e.name = some sf.2 ∧
+      namedTraits (runOps ops) sf.1 (-1) = some e ∧ aliasTypeid (runOps ops) sf.1 = .ok (e.id, sf.1.length) := by
+  have hinv := inv_runOps ops
+  have hshort : ∀ sf ∈ shortNames, resolveShort sf.1 = sf.2 ∧ sf.1 ≠ [] ∧ 58 ∉ sf.1 ∧
+      ∃ e ∈ allNamed init, e.name = some sf.2 := by decide
+  intro sf hsf
+  obtain ⟨hres, hne, hcolon, e, he, hn⟩ := hshort sf hsf
+  have he' := allNamed_mono hinv.ext e he
+  have hfull := (name_roundtrip hinv he' hn).1
+  obtain ⟨hfix, hne2⟩ := hinv.noShort e he' sf.2 hn
+  have hlk : lookupKey (runOps ops) sf.2 = some e := by
+    simpa [namedTraits, hne2, hfix] using hfull
+  have hnt : namedTraits (runOps ops) sf.1 (-1) = some e := by
+    simp [namedTraits, hne, hres, hlk]
+  exact ⟨e, he, hn, hnt, by rw [alias_plain _ _ hcolon, hnt]⟩
+
 /-- "my.type" registered: `my.type : lib.so` gives its id and the offset of `lib.so`; `my.typ:x` and `:x` are refused -/
 example :
     let r := runOps [.mtype (some [109, 121, 46, 116, 121, 112, 101])]
